@@ -730,3 +730,112 @@ Proof.
   intros Ht H. unfold h_step. rewrite Ht.
   destruct (hs_chclosed s); [|destruct H as [H|H]; [discriminate|rewrite H]]; simpl; unfold upd; rewrite Nat.eqb_refl; auto.
 Qed.
+
+(* ====== visitor listener ====== *)
+
+Record IInv (s : ist) : Prop := {
+  ii_nodup : NoDup (ch_q (is_ch s));
+  ii_q : forall c, In c (ch_q (is_ch s)) <-> is_fate s c = IQueued;
+  ii_put : forall t, is_thr s t = Some IPSend \/ is_thr s t = Some IPCloseIt -> is_fate s t = IOffered;
+  ii_end : forall t, is_thr s t = Some IPEnd -> is_fate s t = IQueued \/ is_fate s t = IHandled \/ is_fate s t = IClosed;
+  ii_loop : forall t, is_thr s t = Some ILEnd -> ch_closed (is_ch s) = true /\ ch_q (is_ch s) = [];
+  ii_flag : is_flag s = ch_closed (is_ch s)
+}.
+
+Lemma il_init_inv cfg : IInv (il_init cfg).
+Proof.
+  constructor; simpl; auto.
+  - constructor.
+  - intros c; split; [intros []|]. destruct (nth_error (ic_reqs cfg) c) as [[]|]; discriminate.
+  - intros t. destruct (nth_error (ic_reqs cfg) t) as [[]|]; intros [H|H]; try discriminate; auto.
+  - intros t. destruct (nth_error (ic_reqs cfg) t) as [[]|]; discriminate.
+  - intros t. destruct (nth_error (ic_reqs cfg) t) as [[]|]; discriminate.
+Qed.
+
+Ltac thr3 := let t0 := fresh "t0" in let H := fresh "H" in
+  intros t0; unfold upd; eqs; auto; try discriminate;
+  try (intros [H|H]; try discriminate; auto; fail); try (intros _; auto; fail);
+  try (intros H; match goal with L : forall _, _ -> _ /\ _ |- _ => apply L in H; destruct H; try discriminate; split; auto; congruence end; fail).
+
+Lemma il_step_inv s t : IInv s -> IInv (il_step s t).
+Proof.
+  intros [Ind Iq Ip Ie Il If]. unfold il_step.
+  destruct (is_thr s t) as [[]|] eqn:Et; try (constructor; auto; fail).
+  - (* IPSend *)
+    assert (Hf : is_fate s t = IOffered) by auto.
+    unfold ch_try_send. destruct (ch_closed (is_ch s)) eqn:Ec; [|destruct (_ <? _) eqn:El].
+    + constructor; simpl; auto; try congruence; thr3.
+    + constructor; simpl; auto.
+      * apply NoDup_app_single; auto. intros H. apply Iq in H. congruence.
+      * intros c. rewrite in_app_iff. simpl. unfold upd. eqs; [tauto|]. rewrite Iq. split; [intros [H|[H|[]]]; congruence|auto].
+      * thr3.
+      * thr3.
+      * intros t0. unfold upd. eqs; [discriminate|]. intros H. apply Il in H. destruct H; congruence.
+    + constructor; simpl; auto; try congruence.
+      * intros c. unfold upd. eqs; [|auto]. rewrite Iq. split; congruence.
+      * thr3.
+      * thr3.
+      * thr3.
+  - (* IPCloseIt *)
+    assert (Hf : is_fate s t = IOffered) by auto.
+    constructor; simpl; auto.
+    + intros c. unfold upd. eqs; [|auto]. rewrite Iq. split; congruence.
+    + thr3.
+    + thr3.
+    + thr3.
+  - (* ICGo *)
+    destruct (is_flag s) eqn:Ef.
+    + constructor; simpl; auto; thr3.
+    + constructor; simpl; auto; try thr3.
+  - (* ILRun *)
+    unfold ch_try_recv. case_eq (ch_q (is_ch s)); [intros Eq|intros c r Eq].
+    + case_eq (ch_closed (is_ch s)); intros Ec; [|constructor; auto].
+      constructor; simpl; auto; thr3.
+    + assert (Hc : is_fate s c = IQueued) by (apply Iq; rewrite Eq; left; auto).
+      assert (Hnd : ~ In c r /\ NoDup r) by (rewrite Eq in Ind; inversion Ind; auto). destruct Hnd as [Hnin Hnd].
+      constructor; simpl; auto.
+      * intros c0. unfold upd. eqs; [split; [tauto|discriminate]|]. rewrite <- Iq, Eq. simpl. split; [auto|intros [H|H]; congruence].
+      * intros t0 H. unfold upd. eqs; [|auto]. apply Ip in H. congruence.
+      * intros t0 H. unfold upd. eqs; auto.
+      * intros t0 H. apply Il in H. rewrite Eq in H. destruct H; discriminate.
+Qed.
+
+Lemma il_exec_inv cfg sched : IInv (il_exec cfg sched).
+Proof.
+  unfold il_exec, il_run. generalize (il_init_inv cfg). generalize (il_init cfg).
+  induction sched as [|t r IH]; simpl; intros s I; auto. apply IH, il_step_inv, I.
+Qed.
+
+(* for every order of PutConn / Close / Accept: a queued connection is still going to be received — no
+   accept loop has stopped while something is queued *)
+Theorem visitor_queued_will_be_received cfg sched c t :
+  let s := il_exec cfg sched in is_fate s c = IQueued -> is_thr s t <> Some ILEnd.
+Proof.
+  intros s Hq Hl. pose proof (il_exec_inv cfg sched) as I. fold s in I.
+  apply (ii_loop s I) in Hl. apply (ii_q s I) in Hq. destruct Hl as [_ Hl]. rewrite Hl in Hq. destruct Hq.
+Qed.
+
+(* ... so once the accept loop has stopped, every connection whose PutConn has returned was handed to the
+   handler or closed *)
+Theorem visitor_conn_handled_or_closed cfg sched c t :
+  let s := il_exec cfg sched in
+  is_thr s t = Some ILEnd -> is_thr s c = Some IPEnd -> is_fate s c = IHandled \/ is_fate s c = IClosed.
+Proof.
+  intros s Hl Hc. pose proof (il_exec_inv cfg sched) as I. fold s in I.
+  destruct (ii_end s I c Hc) as [H|H]; auto.
+  exfalso. eapply (visitor_queued_will_be_received cfg sched c t); eauto.
+Qed.
+
+(* the running loop takes the head of a non-empty queue at its next step, closed listener or not *)
+Theorem visitor_loop_progress s t c r :
+  is_thr s t = Some ILRun -> ch_q (is_ch s) = c :: r -> is_fate (il_step s t) c = IHandled.
+Proof.
+  intros Ht Hq. unfold il_step. rewrite Ht. unfold ch_try_recv. rewrite Hq. simpl. unfold upd. rewrite Nat.eqb_refl. auto.
+Qed.
+
+(* and the loop cannot be blocked for ever once the listener is closed *)
+Theorem visitor_loop_ends_after_close s t :
+  is_thr s t = Some ILRun -> ch_closed (is_ch s) = true -> ch_q (is_ch s) = [] -> is_thr (il_step s t) t = Some ILEnd.
+Proof.
+  intros Ht Hc Hq. unfold il_step. rewrite Ht. unfold ch_try_recv. rewrite Hq, Hc. simpl. unfold upd. rewrite Nat.eqb_refl. auto.
+Qed.
